@@ -94,8 +94,22 @@ func Apply(doc, query, update bsonkit.Doc, upsert bool, arrayFilters bsonkit.Lis
 	// resolve positional operators against the original document as earlier
 	// operators may change the values the array filters are matched against
 	var original bsonkit.Doc
+	var check func(path string) error
 	if hasPositionalOperator(*update) {
 		original = bsonkit.Clone(doc)
+
+		// two resolved paths conflict like two literal paths, also if the
+		// operators turn out to be no-ops and record no change
+		resolved := bsonkit.NewPathNode()
+		defer resolved.Recycle()
+		check = func(path string) error {
+			node, rest := resolved.Lookup(path)
+			if node.Load() == true || rest == bsonkit.PathEnd {
+				return fmt.Errorf("conflicting key %q", path)
+			}
+			resolved.Append(path).Store(true)
+			return nil
+		}
 	}
 
 	// update document according to update
@@ -106,6 +120,7 @@ func Apply(doc, query, update bsonkit.Doc, upsert bool, arrayFilters bsonkit.Lis
 		TopLevelArrayFilters: arrayFilters,
 		TopLevelQuery:        query,
 		TopLevelResolveDoc:   original,
+		TopLevelPathCheck:    check,
 	}, doc, *update, "", true)
 	if err != nil {
 		return nil, err
